@@ -375,3 +375,75 @@ func VH17g_shared_release() {
 	}
 	verif.Reach("shared-release-checked")
 }
+
+// VH17h_resize_backlog: a receiving socket with READQ-LEN 1 and a backlog of
+// four messages from one peer (so that the connection's reader goroutine sits
+// on a full queue with a message in its hand), then READQ-LEN is changed on the
+// live socket. The application receives whatever is delivered and HOLDS every
+// message: no message object is handed out twice, every payload arrives at
+// most once, a held body does not change when later messages arrive, and the
+// application's own release of each message is its first (ledger). Resizing may
+// lose messages (the property excludes resizes from the no-loss guarantee); it
+// must not duplicate or recycle them.
+func VH17h_resize_backlog() {
+	protos := []string{"pull", "xpull", "pair", "xpair", "pair1", "xpair1", "sub", "xsub", "rep", "xrep", "respondent", "xrespondent"}
+	proto := protos[verif.Choice("proto", len(protos))]
+	lab := "C17/resize-backlog/" + proto
+	sock := vp.New(proto)
+	vt.Install()
+	if proto == "sub" {
+		verif.Assert(sock.SetOption(mangos.OptionSubscribe, []byte{}) == nil, lab+"/subscribe")
+	}
+	if sock.SetOption(mangos.OptionReadQLen, 1) != nil {
+		verif.Assume(false) // the pattern has no receive queue option
+	}
+	side := vt.Listen(sock, "a")
+	p1 := side.Peer("p1")
+	for i := 0; i < 4; i++ {
+		p1.Deliver(wireFor(proto, byte('a'+i), byte(0x10+i)))
+	}
+	verif.Quiesce()
+	newLen := 2 + verif.Choice("new-len", 3)*3 // 2, 5, 8
+	verif.Assert(sock.SetOption(mangos.OptionReadQLen, newLen) == nil, lab+"/resize")
+	verif.Quiesce()
+	// two more arrive after the resize
+	for i := 4; i < 6; i++ {
+		p1.Deliver(wireFor(proto, byte('a'+i), byte(0x10+i)))
+	}
+	verif.Quiesce()
+	var held []*mangos.Message
+	seen := map[byte]bool{}
+	for k := 0; k < 8; k++ {
+		var m *mangos.Message
+		var err error
+		g := verif.Go("recv", func() { m, err = sock.RecvMsg() })
+		verif.Quiesce()
+		if !g.Done() {
+			break
+		}
+		verif.Assert(err == nil, lab+"/recv-error")
+		if err != nil {
+			break
+		}
+		for _, o := range held {
+			verif.Assert(o != m, lab+"/one-message-object-delivered-twice")
+		}
+		b := m.Body
+		verif.Assert(len(b) == 2 && b[0] >= 'a' && b[0] < 'a'+6 && b[1] == 0x10+(b[0]-'a'), lab+"/delivered-message-is-not-one-that-was-sent")
+		if len(b) == 2 {
+			verif.Assert(!seen[b[0]], lab+"/payload-delivered-twice")
+			seen[b[0]] = true
+		}
+		held = append(held, m)
+	}
+	verif.Assert(len(held) >= 1, lab+"/nothing-delivered-after-resize")
+	for _, m := range held {
+		b := m.Body
+		verif.Assert(len(b) == 2 && b[1] == 0x10+(b[0]-'a'), lab+"/held-message-changed-while-the-application-owned-it")
+	}
+	for _, m := range held {
+		m.Free()
+	}
+	verif.Reach("resize-backlog-checked")
+	sock.Close()
+}
